@@ -13,7 +13,7 @@
    Evaluate methods: the receiver fields are parameters of the generated definition; the lemma
    substitutes what the model's constructor `k_xxx` pre-computes and is stated about the
    closure of the object `k_xxx` returns.
-   Constructors (the loop-free ones): the generated definition returns None where Go returns
+   Constructors: the generated definition returns None where Go returns
    nil / an error, and otherwise the pair (Evaluate, BoundingBox) of the struct it built; the
    lemma `Xxx_ctor` says that this is the model's `k_xxx`, object for object (argument checks,
    pre-computed fields, closure and bounding box).  Wrapped SDF arguments are assumed non-nil,
@@ -27,9 +27,25 @@
      ex_scaletwist (the slope `m`).
    * k_loft (Sdf/Shape.v) had no `if s.height != 0` guard around the mix factor: the Go code
      (after fix 418602f) uses k = 0.5 when height = 2*round; the model computed
-     clamp (0.5*z/0 + 0.5) = NaN on the mid-plane there. *)
-From Coq Require Import ZArith List Bool.
-From Sdfx Require Import Num.Ops Geo.Vec Geo.Box Geo.Mat Sdf.Union2 Sdf.Shape Generated.SdfExpr.
+     clamp (0.5*z/0 + 0.5) = NaN on the mid-plane there.
+
+   Code with loops (second half of the file).  The translator maps `for _, x := range xs`,
+   `for i := range xs`, `for i := 0; i < n; i++` to fold_left / range_loop / count_loop over the
+   tuple of variables the body assigns (Num/Loop.v), `xs[i] = v` to list_set, `xs[i]` to nth, Go ints
+   to Z.  Where the list is concrete (the 4 / 8 vertices of a box: MinMaxDist2, RotateCopy, Slice,
+   Revolve, the twisted extrusions) the loop computes and the equality is still by conversion
+   (after a case split on the `if` conditions).  Where the list or the count is arbitrary (Union:
+   operands; Array, RotateUnion: the number of copies; VecSet.Min/Max; mulVertices) the model
+   is a Fixpoint / fold of its own and the equality is a short induction, stated once for ANY loop
+   body `F` that satisfies the specification of one iteration (`union2_loop1`, `count_loop_rotbox2`,
+   ...); the generated body is then shown to satisfy that specification by conversion (`step_eq`),
+   so the inductions do not depend on the let-structure of the generated text.
+   A slice of SDFs is the list of (Evaluate, BoundingBox) pairs of its operands (`pf2`, `pf3`).
+   Where an induction is involved the constructor lemma states `obj2_same` / `obj3_same` (same
+   bounding box, pointwise the same distance function) instead of Leibniz equality of closures,
+   so no functional extensionality is used. *)
+From Coq Require Import ZArith List Bool Lia.
+From Sdfx Require Import Num.Ops Num.Loop Geo.Vec Geo.Box Geo.Mat Sdf.Union2 Sdf.Shape Generated.SdfExpr.
 Import OpsNotations ListNotations.
 Local Open Scope ops_scope.
 
@@ -57,6 +73,71 @@ Ltac ctor_tac s :=
           end);
   same_tac s.
 Tactic Notation "ctor_eq" ident(s) := ctor_tac s.
+
+(* ---- tactics for the code with loops *)
+(* Case analysis on an atomic test `a` of an `if` condition.  First every atomic test in an `if`
+   condition of the goal that is convertible to `a` (the same test with other implicit arguments
+   or another let-structure) is made syntactically `a`, so that `destruct` sees all of them. *)
+Ltac change_to a c2 := (change c2 with a).
+Ltac unify_atoms a c2 :=
+  lazymatch c2 with
+  | negb ?d => unify_atoms a d
+  | andb ?x ?y => unify_atoms a x; unify_atoms a y
+  | orb ?x ?y => unify_atoms a x; unify_atoms a y
+  | true => idtac
+  | false => idtac
+  | _ => first [ constr_eq a c2 | change_to a c2 | idtac ]
+  end.
+Ltac destruct_cond a :=
+  repeat match goal with
+         | |- context [if ?c2 then _ else _] => progress (unify_atoms a c2)
+         end;
+  destruct a.
+(* the leftmost atomic test of a boolean expression *)
+Ltac cond_atom c k :=
+  lazymatch c with
+  | negb ?d => cond_atom d k
+  | andb ?a _ => cond_atom a k
+  | orb ?a _ => cond_atom a k
+  | _ => k c
+  end.
+Ltac split_ifs :=
+  repeat (try reflexivity;
+          match goal with
+          | |- context [if ?c then _ else _] =>
+              lazymatch c with
+              | context [if _ then _ else _] => fail
+              | true => fail | false => fail
+              | _ => cond_atom c ltac:(fun a => destruct_cond a); cbn [andb orb negb]
+              end
+          end).
+(* One iteration of a generated loop satisfies the specification of the iteration: by conversion,
+   after a case split on the tests where the `if`s are nested differently.  A hypothesis
+   `nth i S d = x` says which element the iteration is about: x is replaced by S[i], so the body
+   may read either. *)
+Ltac use_nth :=
+  repeat match goal with
+         | H : nth _ _ _ = ?x |- _ => is_var x; subst x
+         end.
+Ltac step_tac s :=
+  intros; use_nth;
+  first [ reflexivity
+        | solve [cbv beta zeta; split_ifs]
+        | fail 1 s ": the body of a loop generated from the current Go source is not the loop body of the hand-written model" ].
+Tactic Notation "step_eq" ident(s) := step_tac s.
+
+Ltac compute_tac s := cbv; split_ifs; same_tac s.
+Tactic Notation "compute_eq" ident(s) := compute_tac s.
+(* both sides are `let '(mn, mx) := <loop> in <rest>`: the loops first, then the rest *)
+Ltac minmax_tac s :=
+  try match goal with
+      | |- (let '(a, b) := ?L in _) = (let '(c, d) := ?R in _) =>
+          replace L with R by (cbv; reflexivity); destruct R as [mn mx]
+      end;
+  compute_tac s.
+Tactic Notation "minmax_eq" ident(s) := minmax_tac s.
+Ltac vm_tac s := vm_compute; same_tac s.
+Tactic Notation "vm_eq" ident(s) := vm_tac s.
 
 Section GenEq.
   Context {O : Ops}.
@@ -238,7 +319,7 @@ Section GenEq.
 
   (* the fields Cone3D pre-computes, as k_cone does *)
   Definition cone_sh (height round : T) : T := (height / two) - round.
-  Definition cone_u (height r0 r1 : T) : V2 := v2normalize (v2sub (mkV2 r1 (height / two)) (mkV2 r0 (- height / two))).
+  Definition cone_u (height r0 r1 : T) : V2 := v2normalize (v2sub (mkV2 r1 (height / two)) (mkV2 r0 (- (height / two)))).
   Definition cone_n (height r0 r1 : T) : V2 := let u := cone_u height r0 r1 in mkV2 (vy u) (- (vx u)).
   Definition cone_sr0 (height r0 r1 round : T) : T :=
     let n := cone_n height r0 r1 in r0 - (o1 O + vy n) * (round / vx n).
@@ -412,3 +493,434 @@ Section GenEq.
     option_map obj3_of (sdf_Loft3D (ev2 s0) (bb2 s0) (ev2 s1) (bb2 s1) height round) = k_loft s0 s1 height round.
   Proof. intros. unfold sdf_Loft3D, k_loft, sdf_LoftSDF3_Evaluate. ctor_eq TRANSL_Loft3D_ctor. Qed.
 End GenEq.
+
+(* ================================================================ code with loops *)
+
+(* the loops of UnionSDF2.Evaluate / EvaluateSlow over an arbitrary operand list: an operand is
+   any `e : E` with a box interval `Iv e` and a value `X e` at the query point *)
+Section UnionLoops.
+  Context {O : Ops}.
+  Notation T := (T O).
+  Context {E : Type} (S : list E) (dflt : E) (dz : Interval O) (Iv : E -> Interval O) (X : E -> T) (minf : T -> T -> T).
+
+  Lemma min_index_bound : forall (vs : list (Interval O)) i md mi,
+    (mi < i + length vs)%nat -> (snd (min_index vs i md mi) < i + length vs)%nat.
+  Proof.
+    induction vs as [|v vs IH]; intros i md mi H; cbn [min_index length] in *; [cbn; lia|].
+    destruct ((md <? o0 O) || (fst v <? md)).
+    - replace (i + Datatypes.S (length vs))%nat with (Datatypes.S i + length vs)%nat by lia. apply IH. lia.
+    - replace (i + Datatypes.S (length vs))%nat with (Datatypes.S i + length vs)%nat by lia. apply IH. lia.
+  Qed.
+
+  (* first loop of UnionSDF2.Evaluate: fills vs and tracks the operand with the closest box.
+     F is ANY loop body with this behaviour on the i-th element x of S. *)
+  Lemma union2_loop1 : forall (F : Z -> E -> list (Interval O) * T * Z -> list (Interval O) * T * Z),
+    (forall i x, nth (Z.to_nat i) S dflt = x -> forall vs md mi,
+        F i x (vs, md, mi) =
+        let vs' := list_set vs (Z.to_nat i) (Iv x) in
+        if (md <? o0 O) || (fst (nth (Z.to_nat i) vs' dz) <? md)
+        then (vs', fst (nth (Z.to_nat i) vs' dz), i) else (vs', md, mi)) ->
+    forall xs pre md (mi : nat), S = pre ++ xs ->
+      range_loop xs (Z.of_nat (length pre)) F (map Iv pre ++ repeat dz (length xs), md, Z.of_nat mi) =
+      (map Iv S, fst (min_index (map Iv xs) (length pre) md mi), Z.of_nat (snd (min_index (map Iv xs) (length pre) md mi))).
+  Proof.
+    intros F HF. induction xs as [|x xs IH]; intros pre md mi HS.
+    - rewrite app_nil_r in HS. subst S. cbn. rewrite app_nil_r. reflexivity.
+    - cbn [range_loop length repeat map min_index].
+      rewrite (HF _ x) by (rewrite Nat2Z.id; subst S; apply nth_app_mid).
+      cbv zeta. rewrite Nat2Z.id.
+      rewrite (list_set_app_at (map Iv pre)) by (symmetry; apply map_length).
+      rewrite (nth_app_mid_at (map Iv pre)) by (symmetry; apply map_length).
+      assert (HS' : S = (pre ++ [x]) ++ xs) by (rewrite <- app_assoc; exact HS).
+      assert (E1 : map Iv pre ++ Iv x :: repeat dz (length xs) = map Iv (pre ++ [x]) ++ repeat dz (length xs))
+        by (rewrite map_app, <- app_assoc; reflexivity).
+      assert (E2 : Datatypes.S (length pre) = length (pre ++ [x])) by (rewrite app_length; cbn; lia).
+      rewrite E1, (Z_of_nat_len_snoc pre x), E2.
+      destruct ((md <? o0 O) || (fst (Iv x) <? md)).
+      + apply (IH (pre ++ [x]) (fst (Iv x)) (length pre) HS').
+      + apply (IH (pre ++ [x]) md mi HS').
+  Qed.
+
+  (* second loop: every other operand whose box is within the bound *)
+  Lemma union2_loop2 : forall (vs : list (Interval O)) (b : T) (mi : nat) (F : Z -> E -> T -> T),
+    vs = map Iv S ->
+    (forall i x, nth (Z.to_nat i) S dflt = x -> forall d,
+        F i x d = if negb (Z.eqb i (Z.of_nat mi)) && (fst (nth (Z.to_nat i) vs dz) <=? b)
+                  then minf d (X x) else d) ->
+    forall xs pre d, S = pre ++ xs ->
+      range_loop xs (Z.of_nat (length pre)) F d = prune_loop minf b mi (map (fun x => (Iv x, X x)) xs) (length pre) d.
+  Proof.
+    intros vs b mi F Hvs HF. induction xs as [|x xs IH]; intros pre d HS; [reflexivity|].
+    cbn [range_loop map prune_loop].
+    rewrite (HF _ x) by (rewrite Nat2Z.id; subst S; apply nth_app_mid).
+    rewrite Nat2Z.id, Zeqb_of_nat.
+    assert (Hv : nth (length pre) vs dz = Iv x).
+    { subst vs S. rewrite map_app. cbn [map]. apply nth_app_mid_at. symmetry. apply map_length. }
+    rewrite Hv.
+    assert (HS' : S = (pre ++ [x]) ++ xs) by (rewrite <- app_assoc; exact HS).
+    assert (E2 : Datatypes.S (length pre) = length (pre ++ [x])) by (rewrite app_length; cbn; lia).
+    rewrite (Z_of_nat_len_snoc pre x), E2.
+    destruct (negb (Nat.eqb (length pre) mi) && (fst (Iv x) <=? b)); apply (IH (pre ++ [x]) _ HS').
+  Qed.
+
+  (* EvaluateSlow *)
+  Lemma union2_slow : forall (F : Z -> E -> T -> T),
+    (forall i x, nth (Z.to_nat i) S dflt = x -> forall d,
+        F i x d = if Z.eqb i 0 then X x else minf d (X x)) ->
+    forall xs pre d, S = pre ++ xs ->
+      range_loop xs (Z.of_nat (length pre)) F d = slow_loop minf (map X xs) (Nat.eqb (length pre) 0) d.
+  Proof.
+    intros F HF. induction xs as [|x xs IH]; intros pre d HS; [reflexivity|].
+    cbn [range_loop map slow_loop].
+    rewrite (HF _ x) by (rewrite Nat2Z.id; subst S; apply nth_app_mid).
+    change 0%Z with (Z.of_nat 0). rewrite Zeqb_of_nat.
+    assert (HS' : S = (pre ++ [x]) ++ xs) by (rewrite <- app_assoc; exact HS).
+    rewrite (Z_of_nat_len_snoc pre x), (IH (pre ++ [x]) _ HS').
+    replace (Nat.eqb (length (pre ++ [x])) 0) with false by (rewrite app_length; cbn; rewrite Nat.add_1_r; reflexivity).
+    reflexivity.
+  Qed.
+
+  (* the model's pruned evaluation, once the operand with the closest box is known *)
+  Lemma evaluate_prune : forall md mi,
+    min_index (map Iv S) 0 (- o1 O) 0 = (md, mi) -> (mi < length S)%nat ->
+    evaluate false minf (map (fun e => (Iv e, X e)) S) =
+    prune_loop minf (X (nth mi S dflt) * X (nth mi S dflt)) mi (map (fun e => (Iv e, X e)) S) 0 (X (nth mi S dflt)).
+  Proof.
+    intros md mi Emi Hmi. unfold evaluate. rewrite map_map. cbn [fst].
+    change (map (fun x : E => Iv x) S) with (map Iv S). rewrite Emi.
+    set (g := fun e : E => (Iv e, X e)).
+    rewrite (nth_indep (map g S) (o0 O, o0 O, o0 O) (g dflt)) by (rewrite map_length; exact Hmi).
+    rewrite (map_nth g). reflexivity.
+  Qed.
+End UnionLoops.
+
+
+Section GenEqLoops.
+  Context {O : Ops}.
+  Notation T := (T O).
+  Notation V2 := (V2 O).
+  Notation V3 := (V3 O).
+
+  Definition obj2_same (a b : option (Obj2 O)) : Prop :=
+    match a, b with
+    | Some x, Some y => bb2 x = bb2 y /\ forall p, ev2 x p = ev2 y p
+    | None, None => True
+    | _, _ => False
+    end.
+  Definition obj3_same (a b : option (Obj3 O)) : Prop :=
+    match a, b with
+    | Some x, Some y => bb3 x = bb3 y /\ forall p, ev3 x p = ev3 y p
+    | None, None => True
+    | _, _ => False
+    end.
+
+  (* a slice of SDFs is the list of (Evaluate, BoundingBox) pairs of its operands *)
+  Definition pf2 (s : Obj2 O) : (V2 -> T) * Box2 O := (ev2 s, bb2 s).
+  Definition pf3 (s : Obj3 O) : (V3 -> T) * Box3 O := (ev3 s, bb3 s).
+
+  Definition dflt2 : (V2 -> T) * Box2 O := ((fun _ : V2 => o0 O), mkBox2 (mkV2 (o0 O) (o0 O)) (mkV2 (o0 O) (o0 O))).
+  Definition dflt3 : (V3 -> T) * Box3 O := ((fun _ : V3 => o0 O), mkBox3 (mkV3 (o0 O) (o0 O) (o0 O)) (mkV3 (o0 O) (o0 O) (o0 O))).
+
+  (* ---- vec/v2, vec/v3: VecSet.Min / Max *)
+  Lemma v2_VecSet_Min_eq : forall l : list V2, v2_VecSet_Min l = v2set_min l.
+  Proof.
+    intros l.
+    first [ solve [destruct l; reflexivity]
+          | unfold v2_VecSet_Min, v2set_min; cbv zeta;
+            match goal with |- range_loop l 0%Z ?F ?s = _ =>
+              rewrite (range_loop_as_fold l (mkV2 (o0 O) (o0 O)) v2min F) by (step_eq TRANSL_v2_VecSet_Min)
+            end; destruct l; same_as TRANSL_v2_VecSet_Min
+          | fail 1 "TRANSL_v2_VecSet_Min: the loop generated from the current Go source is not the fold of the hand-written model" ].
+  Qed.
+  Lemma v2_VecSet_Max_eq : forall l : list V2, v2_VecSet_Max l = v2set_max l.
+  Proof.
+    intros l.
+    first [ solve [destruct l; reflexivity]
+          | unfold v2_VecSet_Max, v2set_max; cbv zeta;
+            match goal with |- range_loop l 0%Z ?F ?s = _ =>
+              rewrite (range_loop_as_fold l (mkV2 (o0 O) (o0 O)) v2max F) by (step_eq TRANSL_v2_VecSet_Max)
+            end; destruct l; same_as TRANSL_v2_VecSet_Max
+          | fail 1 "TRANSL_v2_VecSet_Max: the loop generated from the current Go source is not the fold of the hand-written model" ].
+  Qed.
+  Lemma v3_VecSet_Min_eq : forall l : list V3, v3_VecSet_Min l = v3set_min l.
+  Proof.
+    intros l.
+    first [ solve [destruct l; reflexivity]
+          | unfold v3_VecSet_Min, v3set_min; cbv zeta;
+            match goal with |- range_loop l 0%Z ?F ?s = _ =>
+              rewrite (range_loop_as_fold l (mkV3 (o0 O) (o0 O) (o0 O)) v3min F) by (step_eq TRANSL_v3_VecSet_Min)
+            end; destruct l; same_as TRANSL_v3_VecSet_Min
+          | fail 1 "TRANSL_v3_VecSet_Min: the loop generated from the current Go source is not the fold of the hand-written model" ].
+  Qed.
+  Lemma v3_VecSet_Max_eq : forall l : list V3, v3_VecSet_Max l = v3set_max l.
+  Proof.
+    intros l.
+    first [ solve [destruct l; reflexivity]
+          | unfold v3_VecSet_Max, v3set_max; cbv zeta;
+            match goal with |- range_loop l 0%Z ?F ?s = _ =>
+              rewrite (range_loop_as_fold l (mkV3 (o0 O) (o0 O) (o0 O)) v3max F) by (step_eq TRANSL_v3_VecSet_Max)
+            end; destruct l; same_as TRANSL_v3_VecSet_Max
+          | fail 1 "TRANSL_v3_VecSet_Max: the loop generated from the current Go source is not the fold of the hand-written model" ].
+  Qed.
+  Lemma mulVertices2_eq : forall (v : list V2) (a : list T), sdf_mulVertices2 v a = map (m33_mulposition a) v.
+  Proof. intros. unfold sdf_mulVertices2. first [ exact (range_loop_set_map (m33_mulposition a) _ v)
+          | fail 1 "TRANSL_mulVertices2: the loop generated from the current Go source is not `v[i] = a.MulPosition(v[i])` for every i" ]. Qed.
+  Lemma mulVertices3_eq : forall (v : list V3) (a : list T), sdf_mulVertices3 v a = map (m44_mulposition a) v.
+  Proof. intros. unfold sdf_mulVertices3. first [ exact (range_loop_set_map (m44_mulposition a) _ v)
+          | fail 1 "TRANSL_mulVertices3: the loop generated from the current Go source is not `v[i] = a.MulPosition(v[i])` for every i" ]. Qed.
+
+  (* ---- sdf/box2.go, sdf/box3.go: MinMaxDist2.  Both sides are `let '(mn, mx) := <vertex loop> in
+     <faces and edges>`: the loops over the 4 / 8 vertices first (by computation), then a case split *)
+  Lemma Box2_MinMaxDist2_eq : forall (a : Box2 O) (p : V2), sdf_Box2_MinMaxDist2 a p = box2_minmax a p.
+  Proof.
+    intros. unfold sdf_Box2_MinMaxDist2, box2_minmax. cbv zeta.
+    change (box2_translate a (v2neg p)) with (sdf_Box2_Translate a (v2_Vec_Neg p)).
+    generalize (sdf_Box2_Translate a (v2_Vec_Neg p)). intros [[x0 y0] [x1 y1]].
+    minmax_eq TRANSL_Box2_MinMaxDist2.
+  Qed.
+  Lemma Box3_MinMaxDist2_eq : forall (a : Box3 O) (p : V3), sdf_Box3_MinMaxDist2 a p = box3_minmax a p.
+  Proof.
+    intros. unfold sdf_Box3_MinMaxDist2, box3_minmax. cbv zeta.
+    change (box3_translate a (v3neg p)) with (sdf_Box3_Translate a (v3_Vec_Neg p)).
+    generalize (sdf_Box3_Translate a (v3_Vec_Neg p)). intros [[x0 y0 z0] [x1 y1 z1]].
+    minmax_eq TRANSL_Box3_MinMaxDist2.
+  Qed.
+
+  (* ---- UnionSDF2.EvaluateSlow *)
+  Lemma UnionSlow2_eq : forall (minf : T -> T -> T) (l : list (Obj2 O)) (p : V2),
+    sdf_UnionSDF2_EvaluateSlow (map pf2 l) minf p =
+    evaluate_slow minf (map (fun x => (box2_minmax (bb2 x) p, ev2 x p)) l).
+  Proof.
+    intros. unfold sdf_UnionSDF2_EvaluateSlow, evaluate_slow. rewrite map_map. cbn [snd].
+    match goal with |- range_loop ?S0 0%Z ?F ?d = _ =>
+      rewrite (union2_slow S0 dflt2 (fun e => fst e p) minf F) with (pre := []) (xs := S0);
+      [ | step_eq TRANSL_UnionSlow2 | reflexivity ]
+    end.
+    rewrite map_map. reflexivity.
+  Qed.
+
+  (* ---- UnionSDF2.Evaluate *)
+  Lemma Union2_eval_eq : forall mk (l : list (Obj2 O)) (p : V2), (0 < length l)%nat ->
+    sdf_UnionSDF2_Evaluate (map pf2 l) (min_apply mk) (min_is_blend mk) p =
+    evaluate (min_is_blend mk) (min_apply mk) (map (fun x => (box2_minmax (bb2 x) p, ev2 x p)) l).
+  Proof.
+    intros mk l p Hlen. unfold sdf_UnionSDF2_Evaluate.
+    destruct (min_is_blend mk); [apply UnionSlow2_eq|].
+    set (S0 := map pf2 l).
+    pose (Iv := (fun e => sdf_Box2_MinMaxDist2 (snd e) p) : (V2 -> T) * Box2 O -> Interval O).
+    pose (X := fun e : (V2 -> T) * Box2 O => fst e p).
+    assert (Hops : map (fun x => (box2_minmax (bb2 x) p, ev2 x p)) l = map (fun e => (Iv e, X e)) S0).
+    { unfold S0. rewrite map_map. apply map_ext. intro a. unfold Iv, X, pf2. cbn [fst snd].
+      f_equal; symmetry; apply Box2_MinMaxDist2_eq. }
+    rewrite Hops. clear Hops.
+    destruct (min_index (map Iv S0) 0 (- o1 O) 0) as [md mi] eqn:Emi.
+    assert (Hmi : (mi < length S0)%nat).
+    { pose proof (min_index_bound (map Iv S0) 0 (- o1 O) 0) as B. rewrite Emi, map_length in B. cbn [snd] in B.
+      apply B. unfold S0. rewrite map_length. lia. }
+    rewrite (evaluate_prune S0 dflt2 Iv X (min_apply mk) md mi Emi Hmi).
+    rewrite Z_to_nat_of_len. cbv zeta.
+    (* first loop *)
+    match goal with |- context [range_loop S0 0%Z ?F ?st] =>
+      assert (H1 := union2_loop1 S0 dflt2 (o0 O, o0 O) Iv F);
+      match type of H1 with ?A -> _ => assert (HF : A); [ subst Iv X; step_eq TRANSL_Union2 | specialize (H1 HF S0 [] (- o1 O) 0%nat eq_refl) ] end;
+      cbn [length] in H1; rewrite Emi in H1; cbn [fst snd] in H1;
+      match type of H1 with _ = ?R => replace (range_loop S0 0%Z F st) with R by (symmetry; exact H1) end
+    end.
+    clear H1 HF. cbv beta iota. rewrite Nat2Z.id.
+    (* second loop *)
+    match goal with |- range_loop S0 0%Z ?F ?d = _ =>
+      refine (union2_loop2 S0 dflt2 (o0 O, o0 O) Iv X (min_apply mk) (map Iv S0) _ mi F eq_refl _ S0 [] d eq_refl)
+    end.
+    subst Iv X. step_eq TRANSL_Union2.
+  Qed.
+
+  Lemma Union2_eq : forall mk (l : list (Obj2 O)) o p, (2 <= length l)%nat -> k_union2 mk l = Some o ->
+    sdf_UnionSDF2_Evaluate (map pf2 l) (min_apply mk) (min_is_blend mk) p = ev2 o p.
+  Proof.
+    intros mk l o p Hlen H. rewrite Union2_eval_eq by lia.
+    destruct l as [|s0 [|s1 r]]; cbn [length] in Hlen; try lia.
+    unfold k_union2 in H. inversion H; subst; clear H. reflexivity.
+  Qed.
+
+  (* ---- UnionSDF3.Evaluate *)
+  Lemma Union3_eq : forall mk (l : list (Obj3 O)) o p, (2 <= length l)%nat -> k_union3 mk l = Some o ->
+    sdf_UnionSDF3_Evaluate (map pf3 l) (min_apply mk) p = ev3 o p.
+  Proof.
+    intros mk l o p Hlen H.
+    destruct l as [|s0 [|s1 r]]; cbn [length] in Hlen; try lia.
+    unfold k_union3 in H. inversion H; subst; clear H. cbn [ev3].
+    unfold sdf_UnionSDF3_Evaluate. cbv zeta.
+    match goal with |- range_loop ?S0 0%Z ?F _ = _ =>
+      rewrite (range_loop_first_at S0 dflt3 (fun x : (V3 -> T) * Box3 O => fst x p) (fun d x => min_apply mk d (fst x p)) F)
+        with (x0 := pf3 s0) (r := map pf3 (s1 :: r))
+    end.
+    - rewrite fold_left_map. reflexivity.
+    - step_eq TRANSL_Union3.
+    - intros i x s Hi Hx. destruct i; [lia | step_eq TRANSL_Union3 | lia].
+    - reflexivity.
+  Qed.
+
+  (* ---- the constructors: nil operands are the caller's concern (operands are non-nil here) *)
+  Lemma Zlen_eqb_0 : forall {A} (x : A) l, Z.eqb (Z.of_nat (length (x :: l))) 0 = false.
+  Proof. intros. apply Z.eqb_neq. cbn [length]. lia. Qed.
+  Lemma Zlen_eqb_1 : forall {A} (x y : A) l, Z.eqb (Z.of_nat (length (x :: y :: l))) 1 = false.
+  Proof. intros. apply Z.eqb_neq. cbn [length]. lia. Qed.
+
+  Lemma Union2D_ctor : forall l : list (Obj2 O),
+    obj2_same (option_map obj2_of (sdf_Union2D (map pf2 l))) (k_union2 MinDef l).
+  Proof.
+    intros l. unfold sdf_Union2D.
+    match goal with |- context [fold_left ?F (map pf2 l) []] =>
+      rewrite (fold_left_strip pf2 F) by (step_eq TRANSL_Union2D_ctor)
+    end.
+    cbn [app]. destruct l as [|s0 [|s1 r]].
+    - exact I.
+    - split; reflexivity.
+    - cbn [map]. rewrite !Zlen_eqb_0, Zlen_eqb_1. cbv zeta. cbn [option_map obj2_of fst snd nth].
+      unfold k_union2, obj2_same. split.
+      + cbn [bb2]. rewrite <- !(map_cons pf2).
+        try match goal with |- context [range_loop ?S0 0%Z ?F ?a] =>
+              rewrite (range_loop_as_fold S0 dflt2 (fun bb x => box2_extend bb (snd x)) F) by (step_eq TRANSL_Union2D_ctor)
+            end.
+        rewrite fold_left_map. same_as TRANSL_Union2D_ctor.
+      + intro p. rewrite <- !(map_cons pf2). cbn [ev2].
+        exact (Union2_eval_eq MinDef (s0 :: s1 :: r) p ltac:(cbn; lia)).
+  Qed.
+
+  Lemma Union3D_ctor : forall l : list (Obj3 O),
+    obj3_same (option_map obj3_of (sdf_Union3D (map pf3 l))) (k_union3 MinDef l).
+  Proof.
+    intros l. unfold sdf_Union3D.
+    match goal with |- context [fold_left ?F (map pf3 l) []] =>
+      rewrite (fold_left_strip pf3 F) by (step_eq TRANSL_Union3D_ctor)
+    end.
+    cbn [app]. destruct l as [|s0 [|s1 r]].
+    - exact I.
+    - split; reflexivity.
+    - cbn [map]. rewrite !Zlen_eqb_0, Zlen_eqb_1. cbv zeta. cbn [option_map obj3_of fst snd nth].
+      pose proof (Union3_eq MinDef (s0 :: s1 :: r)) as HE.
+      unfold k_union3, obj3_same in *. split.
+      + cbn [bb3]. rewrite <- !(map_cons pf3).
+        try match goal with |- context [range_loop ?S0 0%Z ?F ?a] =>
+              rewrite (range_loop_as_fold S0 dflt3 (fun bb x => box3_extend bb (snd x)) F) by (step_eq TRANSL_Union3D_ctor)
+            end.
+        rewrite fold_left_map. same_as TRANSL_Union3D_ctor.
+      + intro p. rewrite <- !(map_cons pf3). exact (HE _ p ltac:(cbn; lia) eq_refl).
+  Qed.
+
+  (* ---- Array *)
+  Lemma Array2_eq : forall mk (s : Obj2 O) nx ny step o p, k_array2 mk s nx ny step = Some o ->
+    sdf_ArraySDF2_Evaluate (ev2 s) (nx, ny) step (min_apply mk) p = ev2 o p.
+  Proof. intros mk s nx ny step o p H. unfold k_array2 in H. open_k H. same_as TRANSL_Array2. Qed.
+  Lemma Array3_eq : forall mk (s : Obj3 O) nx ny nz step o p, k_array3 mk s nx ny nz step = Some o ->
+    sdf_ArraySDF3_Evaluate (ev3 s) (nx, ny, nz) step (min_apply mk) p = ev3 o p.
+  Proof. intros mk s nx ny nz step o p H. unfold k_array3 in H. open_k H. same_as TRANSL_Array3. Qed.
+
+  Lemma Array2D_ctor : forall (s : Obj2 O) nx ny step,
+    option_map obj2_of (sdf_Array2D (ev2 s) (bb2 s) (nx, ny) step) = k_array2 MinDef s nx ny step.
+  Proof. intros. unfold sdf_Array2D, k_array2. cbn [fst snd]. ctor_eq TRANSL_Array2D_ctor. Qed.
+  Lemma Array3D_ctor : forall (s : Obj3 O) nx ny nz step,
+    option_map obj3_of (sdf_Array3D (ev3 s) (bb3 s) (nx, ny, nz) step) = k_array3 MinDef s nx ny nz step.
+  Proof. intros. unfold sdf_Array3D, k_array3. cbn [fst snd]. ctor_eq TRANSL_Array3D_ctor. Qed.
+
+  (* ---- RotateUnion: Evaluate *)
+  Lemma count_loop_rotunion2 : forall mk (f : V2 -> T) sstep p (F : Z -> T * list T -> T * list T),
+    (forall i d rot, F i (d, rot) = (min_apply mk d (f (m33_mulposition rot p)), m33_mul rot sstep)) ->
+    forall n i rot d, fst (Loop.count_loop n i F (d, rot)) = rotunion_loop2 mk f n sstep rot p d.
+  Proof. intros mk f sstep p F HF. induction n as [|n IH]; intros; cbn; [reflexivity|]. rewrite HF. apply IH. Qed.
+  Lemma count_loop_rotunion3 : forall mk (f : V3 -> T) sstep p (F : Z -> T * list T -> T * list T),
+    (forall i d rot, F i (d, rot) = (min_apply mk d (f (m44_mulposition rot p)), m44_mul rot sstep)) ->
+    forall n i rot d, fst (Loop.count_loop n i F (d, rot)) = rotunion_loop3 mk f n sstep rot p d.
+  Proof. intros mk f sstep p F HF. induction n as [|n IH]; intros; cbn; [reflexivity|]. rewrite HF. apply IH. Qed.
+
+  Lemma RotateUnion2_eq : forall mk (s : Obj2 O) num step o p, k_rotateunion2 mk s num step = Some o ->
+    sdf_RotateUnionSDF2_Evaluate (ev2 s) num (m33_inverse step) (min_apply mk) p = ev2 o p.
+  Proof.
+    intros mk s num step o p H. unfold k_rotateunion2 in H.
+    destruct (num <=? 0)%Z; [discriminate|]. destruct (rotunion_box2 _ _ _ _ _) as [bmin bmax].
+    inversion H; subst; clear H. cbn [ev2]. unfold sdf_RotateUnionSDF2_Evaluate.
+    apply count_loop_rotunion2. step_eq TRANSL_RotateUnion2.
+  Qed.
+  Lemma RotateUnion3_eq : forall mk (s : Obj3 O) num step o p, k_rotateunion3 mk s num step = Some o ->
+    sdf_RotateUnionSDF3_Evaluate (ev3 s) num (m44_inverse step) (min_apply mk) p = ev3 o p.
+  Proof.
+    intros mk s num step o p H. unfold k_rotateunion3 in H.
+    destruct (num <=? 0)%Z; [discriminate|]. destruct (rotunion_box3 _ _ _ _ _) as [bmin bmax].
+    inversion H; subst; clear H. cbn [ev3]. unfold sdf_RotateUnionSDF3_Evaluate.
+    apply count_loop_rotunion3. step_eq TRANSL_RotateUnion3.
+  Qed.
+
+  (* ---- RotateUnion: the bounding box loop of the constructor *)
+  Lemma count_loop_rotbox2 : forall step (F : Z -> V2 * V2 * list V2 -> V2 * V2 * list V2),
+    (forall i bmin bmax v, F i (bmin, bmax, v) = (v2min bmin (v2set_min v), v2max bmax (v2set_max v), map (m33_mulposition step) v)) ->
+    forall n i v bmin bmax, fst (Loop.count_loop n i F (bmin, bmax, v)) = rotunion_box2 n step v bmin bmax.
+  Proof. intros step F HF. induction n as [|n IH]; intros; cbn; [reflexivity|]. rewrite HF. apply IH. Qed.
+  Lemma count_loop_rotbox3 : forall step (F : Z -> V3 * V3 * list V3 -> V3 * V3 * list V3),
+    (forall i bmin bmax v, F i (bmin, bmax, v) = (v3min bmin (v3set_min v), v3max bmax (v3set_max v), map (m44_mulposition step) v)) ->
+    forall n i v bmin bmax, fst (Loop.count_loop n i F (bmin, bmax, v)) = rotunion_box3 n step v bmin bmax.
+  Proof. intros step F HF. induction n as [|n IH]; intros; cbn; [reflexivity|]. rewrite HF. apply IH. Qed.
+
+  Lemma RotateUnion2D_ctor : forall (s : Obj2 O) num step,
+    obj2_same (option_map obj2_of (sdf_RotateUnion2D (ev2 s) (bb2 s) num step)) (k_rotateunion2 MinDef s num step).
+  Proof.
+    intros. pose proof (RotateUnion2_eq MinDef s num step) as HE.
+    unfold sdf_RotateUnion2D, k_rotateunion2 in *.
+    destruct (num <=? 0)%Z; [exact I|]. cbv zeta in *.
+    match goal with |- context [Loop.count_loop ?n0 ?i0 ?F ?st] =>
+      assert (HB : fst (Loop.count_loop n0 i0 F st) =
+                   rotunion_box2 (Z.to_nat num) step (box2_vertices (bb2 s)) (hd v2zero (box2_vertices (bb2 s))) (hd v2zero (box2_vertices (bb2 s))));
+      [ apply (count_loop_rotbox2 step F); intros; cbv beta iota;
+        rewrite ?v2_VecSet_Min_eq, ?v2_VecSet_Max_eq, ?mulVertices2_eq; step_eq TRANSL_RotateUnion2D_ctor
+      | destruct (Loop.count_loop n0 i0 F st) as [[bbMin bbMax] v] ]
+    end.
+    cbn [fst] in HB. rewrite <- HB in *.
+    split; [reflexivity|]. intro p. exact (HE _ p eq_refl).
+  Qed.
+  Lemma RotateUnion3D_ctor : forall (s : Obj3 O) num step,
+    obj3_same (option_map obj3_of (sdf_RotateUnion3D (ev3 s) (bb3 s) num step)) (k_rotateunion3 MinDef s num step).
+  Proof.
+    intros. pose proof (RotateUnion3_eq MinDef s num step) as HE.
+    unfold sdf_RotateUnion3D, k_rotateunion3 in *.
+    destruct (num <=? 0)%Z; [exact I|]. cbv zeta in *.
+    match goal with |- context [Loop.count_loop ?n0 ?i0 ?F ?st] =>
+      assert (HB : fst (Loop.count_loop n0 i0 F st) =
+                   rotunion_box3 (Z.to_nat num) step (box3_vertices (bb3 s)) (hd v3zero (box3_vertices (bb3 s))) (hd v3zero (box3_vertices (bb3 s))));
+      [ apply (count_loop_rotbox3 step F); intros; cbv beta iota;
+        rewrite ?v3_VecSet_Min_eq, ?v3_VecSet_Max_eq, ?mulVertices3_eq; step_eq TRANSL_RotateUnion3D_ctor
+      | destruct (Loop.count_loop n0 i0 F st) as [[bbMin bbMax] v] ]
+    end.
+    cbn [fst] in HB. rewrite <- HB in *.
+    split; [reflexivity|]. intro p. exact (HE _ p eq_refl).
+  Qed.
+
+  (* ---- constructors whose loops run over the vertices of a box *)
+  Lemma RotateCopy2D_ctor : forall (s : Obj2 O) n,
+    option_map obj2_of (sdf_RotateCopy2D (ev2 s) (bb2 s) n) = k_rotatecopy2 s n.
+  Proof. intros. unfold sdf_RotateCopy2D, k_rotatecopy2. ctor_eq TRANSL_RotateCopy2D_ctor. Qed.
+  Lemma RotateCopy3D_ctor : forall (s : Obj3 O) n,
+    option_map obj3_of (sdf_RotateCopy3D (ev3 s) (bb3 s) n) = k_rotatecopy3 s n.
+  Proof. intros. unfold sdf_RotateCopy3D, k_rotatecopy3. ctor_eq TRANSL_RotateCopy3D_ctor. Qed.
+
+  Lemma Slice2D_ctor : forall (s : Obj3 O) a n,
+    option_map obj2_of (sdf_Slice2D (ev3 s) (bb3 s) a n) = k_slice2 s a n.
+  Proof. intros. unfold sdf_Slice2D, k_slice2. fold (slice_u0 n). generalize (slice_u0 n). intro u0.
+    destruct s as [f [[x0 y0 z0] [x1 y1 z1]]]. vm_eq TRANSL_Slice2D_ctor.
+  Qed.
+
+  Lemma RevolveTheta3D_ctor : forall (s : Obj2 O) theta,
+    option_map obj3_of (sdf_RevolveTheta3D (ev2 s) (bb2 s) theta) = k_revolve s theta.
+  Proof.
+    intros. unfold sdf_RevolveTheta3D, sdf_SorSDF3_Evaluate, k_revolve. cbv zeta.
+    split_ifs; same_as TRANSL_RevolveTheta3D_ctor.
+  Qed.
+  Lemma Revolve3D_ctor : forall (s : Obj2 O),
+    option_map obj3_of (sdf_Revolve3D (ev2 s) (bb2 s)) = k_revolve s (o0 O).
+  Proof. intros. unfold sdf_Revolve3D. apply RevolveTheta3D_ctor. Qed.
+
+  Lemma TwistExtrude3D_ctor : forall (s : Obj2 O) height twist,
+    option_map obj3_of (sdf_TwistExtrude3D (ev2 s) (bb2 s) height twist) = k_twistextrude s height twist.
+  Proof. intros. unfold sdf_TwistExtrude3D, k_twistextrude. ctor_eq TRANSL_TwistExtrude3D_ctor. Qed.
+  Lemma ScaleTwistExtrude3D_ctor : forall (s : Obj2 O) height twist scale,
+    option_map obj3_of (sdf_ScaleTwistExtrude3D (ev2 s) (bb2 s) height twist scale) = k_scaletwistextrude s height twist scale.
+  Proof. intros. unfold sdf_ScaleTwistExtrude3D, k_scaletwistextrude. ctor_eq TRANSL_ScaleTwistExtrude3D_ctor. Qed.
+End GenEqLoops.
